@@ -1446,6 +1446,19 @@ func (c *Conn) sendPending(id uint32) error {
 		// moment the request is canceled.
 		if !pb.ctx.acquireFor(c, id) {
 			c.deletePending(id)
+
+			// The chunk has been taken out of the windows and is not going
+			// out after all. The stream is over, but the connection window
+			// belongs to every other request: what is not handed back here
+			// is window the server has granted and the client never uses.
+			if n > 0 {
+				c.sendLck.Lock()
+				c.connWindow += int32(n)
+				c.sendLck.Unlock()
+
+				c.signalWindow()
+			}
+
 			return nil
 		}
 
